@@ -56,6 +56,9 @@ pub static mut SIM: Option<Sim> = None;
 /// last physical frame address a MappedPageTable mapping was asked for that lies outside the window
 pub static mut LAST_UNKNOWN_FRAME: u64 = 0;
 
+/// recursive view: a non-recursive alias of the level-4 table
+pub const L4_ALIAS: u64 = CUT_BASE + (L4_FRAME * FSZ) as u64;
+
 pub fn sim() -> &'static mut Sim {
     unsafe { SIM.as_mut().expect("SimPhys not initialised") }
 }
@@ -352,6 +355,11 @@ pub fn init(view: View, pbase: u64, perm_seed: u64) {
                 let r = libc::mmap(host as *mut c_void, FSZ, libc::PROT_READ | libc::PROT_WRITE, libc::MAP_SHARED | libc::MAP_FIXED_NOREPLACE, fd, (L4_FRAME * FSZ) as off_t);
                 if r as u64 != host {
                     die("recursive level-4 mmap (fixed address busy)");
+                }
+                // a second, non-recursive alias of the level-4 table (e.g. its physical-memory-offset address)
+                let r = libc::mmap(L4_ALIAS as *mut c_void, FSZ, libc::PROT_READ | libc::PROT_WRITE, libc::MAP_SHARED | libc::MAP_FIXED_NOREPLACE, fd, (L4_FRAME * FSZ) as off_t);
+                if r as u64 != L4_ALIAS {
+                    die("level-4 alias mmap (fixed address busy)");
                 }
             }
         }
